@@ -60,7 +60,8 @@ type c11Key struct {
 	op   apiOp
 }
 
-func pathStr(acct int, p []string) string { return fmt.Sprintf("%d/%s", acct, strings.Join(p, "\x00")) }
+// pathStr is injective: every element quoted (index keys may be empty or contain any byte).
+func pathStr(acct int, p []string) string { return fmt.Sprintf("%d/%q", acct, p) }
 
 func offVal(i int) (uint8, bool) { // value, valid
 	o := c11Offsets[i]
